@@ -140,10 +140,10 @@ Definition ls_estimate_svd (s : ls_state) : option (ls_state * list T) :=
 Definition ls_weighted_estimate (s : ls_state) : option (ls_state * list T) :=
   if ls_est_ok s then ls_estimate_chol (ls_weight s) else None.
 
-(* computeEstimateCovariance:  Ac_^T * inverseJtJ_ * Ac_ * dataVariance *)
+(* computeEstimateCovariance (repaired, 870e444):  Ac_ * inverseJtJ_ * Ac_^T * dataVariance *)
 Definition ls_covariance (s : ls_state) (var : T) : list (list T) :=
   let k := ls_k s in
-  let m := mmul N k k k (mmul N k k k (mtrans N k k (ls_A s)) (ls_inv s)) (ls_A s) in
+  let m := mmul N k k k (mmul N k k k (ls_A s) (ls_inv s)) (mtrans N k k (ls_A s)) in
   mtab k k (fun i j => nmul N (mget N m i j) var).
 
 (* ---- the op language of the state machine ---- *)
